@@ -463,7 +463,7 @@ def gen(rng, tier):
     # reduce_minimise last: on a tree without proposed_fixes/C07-1 its cases with an unproductive
     # cycle disagree (recorded finding); at most MAX_DEAD of them so that they cannot crowd out
     # the other disagreements the driver looks at
-    n = {"reduce": 60, "product": 50, "union": 45, "map_states": 30, "minimise": 60, "minimise_raw": 15,
+    n = {"reduce": 60, "product": 50, "union": 45, "map_states": 70, "minimise": 60, "minimise_raw": 15,
          "reduce_minimise": 60}
     dead_left = MAX_DEAD
     if not quick:
@@ -485,9 +485,14 @@ def gen(rng, tier):
             elif kind == "map_states":
                 A = gen_aut(rng, ar)
                 sts = sorted({d for _, a, d in A[0]} | {x for _, a, _ in A[0] for x in a} | set(A[1]))
-                mode = rng.choice(["shift", "pair", "perm", "nest"])
+                # renamings whose image overlaps the old names (permutations, small shifts) are the
+                # interesting ones: a state left un-renamed (e.g. an unreachable one) then collides
+                mode = rng.choice(["shift", "pair", "perm", "perm", "perm", "shift_small", "shift_small", "nest"])
                 if mode == "shift":
                     table = [[q, q + 100] for q in sts]
+                elif mode == "shift_small":
+                    k = rng.choice([1, 2])
+                    table = [[q, q + k] for q in sts]
                 elif mode == "pair":
                     table = [[q, [q, 7]] for q in sts]
                 elif mode == "nest":
